@@ -44,6 +44,6 @@ def run(ctx):
                        "LinearParameterMapping.combine", "_freeze_map"])
     fingerprint.check(ctx, "packages/circuit/quri_parts/circuit/transpile/transpiler.py",
                       ["ParametricTranspiler.__call__", "ParametricSequentialTranspiler.__call__"])
-    ctx.coq(["ptemplates.v"], ["C10.v"])
+    ctx.coq(["ptemplates.v"], ["C10.v", "C10_pauli.v"])
     ctx.harness("corr_C10.py", kind="corr")
     ctx.harness("sweep_C10.py", timeout=2400)
